@@ -305,6 +305,7 @@ pub fn gen_net(rng: &mut Rng) -> NetPolicy {
     };
     // mostly short refusals; sometimes back-pressure that outlasts the client's re-idle delay
     n.write_pending_ms = *rng.pick(&[1u32, 1, 2, 3, 3, 2, 60, 120, 250]);
+    n.eof_delay_ms = *rng.pick(&[0u32, 0, 0, 1, 2, 5, 150]);
     n
 }
 
@@ -877,6 +878,14 @@ pub fn shrink_plan(plan: &Plan) -> Vec<Plan> {
         let mut p = plan.clone();
         p.net.write_pending = vec![0];
         push(p);
+        if plan.net.eof_delay_ms > 0 {
+            let mut p = plan.clone();
+            p.net.eof_delay_ms = 0;
+            push(p);
+            let mut p = plan.clone();
+            p.net.eof_delay_ms = plan.net.eof_delay_ms / 2;
+            push(p);
+        }
         if let SegMode::Sizes(s) = &plan.net.s2c_mode {
             if s.len() > 1 {
                 let mut p = plan.clone();
